@@ -163,3 +163,255 @@ Proof.
         -- cbn [app] in H1. injection H1 as <- ->. cbn [walk] in H2. rewrite Ey in H2.
            discriminate.
 Qed.
+
+(* ---- the view from the populated map ------------------------------------------------- *)
+Definition scol (s : store) (key : list Z * Z) : list Z :=
+  match walk s 0 (fst key) with Some t => ncol s t (snd key) | None => [] end.
+Definition RootNone (s : store) : Prop := m_parent (sm s 0) = None.
+
+Lemma scol_transfer s s' :
+  (forall q x, walk s 0 q = Some x -> walk s' 0 q = Some x) ->
+  (forall q x, walk s' 0 q = Some x ->
+               walk s 0 q = Some x \/ (walk s 0 q = None /\ forall n, ncol s' x n = [])) ->
+  (forall x n, ncol s' x n = ncol s x n) ->
+  forall key, scol s' key = scol s key.
+Proof.
+  intros H1 H2 H3 [q n]. unfold scol. cbn [fst snd].
+  destruct (walk s' 0 q) as [x|] eqn:E.
+  - destruct (H2 q x E) as [E0|[E0 HN]]; rewrite E0; [apply H3|apply HN].
+  - destruct (walk s 0 q) as [x|] eqn:E0; [|reflexivity].
+    rewrite (H1 q x E0) in E. discriminate.
+Qed.
+
+Lemma lay0_of_ncol s x n : ncol s x n = [] -> lay0 s x n = None.
+Proof.
+  rewrite ncol_lay0. destruct (lay0 s x n); [discriminate|reflexivity].
+Qed.
+
+(* ---- one iteration of the loop over keys[:-1] ------------------------------------------ *)
+Lemma walk_step_records s t k :
+  let r := sm s t in
+  match alookup k (m_maps r) with
+  | Some c =>
+      walk_step s t k =
+      (mput s t (MR (m_parent r) (m_key r) (m_maps r) (cm_pop_all k (m_layers r))), c)
+  | None =>
+      walk_step s t k =
+      (ST (fun x => if x =? new_id s then MR (Some t) (Some k) [] [[]]
+                    else if x =? t then MR (m_parent r) (m_key r) (aset k (new_id s) (m_maps r))
+                                           (cm_pop_all k (m_layers r))
+                    else sm s x) (sh s) (snext s + 1), new_id s)
+  end.
+Proof.
+  cbv zeta. unfold walk_step. cbn [m_maps m_parent m_key m_layers].
+  destruct (alookup k (m_maps (sm s t))); reflexivity.
+Qed.
+
+Lemma ncol_pop s t k n :
+  ncol s t k = [] ->
+  column n (cm_pop_all k (m_layers (sm s t))) = ncol s t n.
+Proof.
+  intros H. rewrite column_pop_all. destruct (n =? k) eqn:E; [|reflexivity].
+  apply Z.eqb_eq in E. subst n. now rewrite H.
+Qed.
+
+Lemma lay0_pop s t k n :
+  ncol s t k = [] ->
+  match cm_pop_all k (m_layers (sm s t)) with l0 :: _ => alookup n l0 | [] => None end =
+  lay0 s t n.
+Proof.
+  intros H. apply lay0_of_ncol in H. unfold lay0 in *.
+  destruct (m_layers (sm s t)) as [|l0 ls]; [reflexivity|].
+  cbn [cm_pop_all map]. rewrite alookup_adel. destruct (n =? k) eqn:E; [|reflexivity].
+  apply Z.eqb_eq in E. subst n. now rewrite H.
+Qed.
+
+Lemma walk_step_frame used s t k :
+  Inv used s -> - snext s <= t -> ncol s t k = [] ->
+  let s' := fst (walk_step s t k) in
+  let c := snd (walk_step s t k) in
+  (forall x n, ncol s' x n = ncol s x n) /\
+  (forall x n, lay0 s' x n = lay0 s x n) /\
+  (forall x, x <> c -> m_parent (sm s' x) = m_parent (sm s x)) /\
+  (forall x, x <> t -> x <> new_id s -> sm s' x = sm s x) /\
+  sh s' = sh s /\
+  ((alookup k (m_maps (sm s t)) = Some c /\ (forall x, m_maps (sm s' x) = m_maps (sm s x))) \/
+   (alookup k (m_maps (sm s t)) = None /\ c = new_id s /\ c <> t /\ c <> 0 /\
+    (forall M n, ~ child_m s M n c) /\
+    (forall n, ncol s' c n = []) /\
+    (forall x, m_maps (sm s' x) =
+               if x =? t then aset k c (m_maps (sm s t))
+               else if x =? c then [] else m_maps (sm s x)))).
+Proof.
+  intros HI Ht HC. pose proof (walk_step_records s t k) as HR. cbv zeta in HR.
+  pose proof (I_next _ _ HI) as Hn.
+  destruct (alookup k (m_maps (sm s t))) as [c|] eqn:E; rewrite HR; cbn [fst snd].
+  - (* the sub-map exists *)
+    repeat split.
+    + intros x n. unfold ncol. cbn [sm mput]. destruct (x =? t) eqn:Ex; [|reflexivity].
+      apply Z.eqb_eq in Ex. subst x. cbn [m_layers]. now apply ncol_pop.
+    + intros x n. unfold lay0 at 1. cbn [sm mput]. destruct (x =? t) eqn:Ex; [|reflexivity].
+      apply Z.eqb_eq in Ex. subst x. cbn [m_layers]. now apply lay0_pop.
+    + intros x _. cbn [sm mput]. destruct (x =? t) eqn:Ex; [|reflexivity].
+      apply Z.eqb_eq in Ex. now subst x.
+    + intros x Hx _. cbn [sm mput]. destruct (x =? t) eqn:Ex; [|reflexivity].
+      apply Z.eqb_eq in Ex. contradiction.
+    + left. split; [reflexivity|]. intros x. cbn [sm mput].
+      destruct (x =? t) eqn:Ex; [|reflexivity]. apply Z.eqb_eq in Ex. now subst x.
+  - (* a new sub-map is created *)
+    assert (Hct : new_id s <> t) by (unfold new_id; lia).
+    assert (Hc0 : new_id s <> 0) by (unfold new_id; lia).
+    assert (Hcd : sm s (new_id s) = m_default) by (apply (I_fresh _ _ HI); unfold new_id; lia).
+    repeat split.
+    + intros x n. unfold ncol. cbn [sm]. destruct (x =? new_id s) eqn:Ec.
+      * apply Z.eqb_eq in Ec. subst x. now rewrite Hcd.
+      * destruct (x =? t) eqn:Ex; [|reflexivity].
+        apply Z.eqb_eq in Ex. subst x. cbn [m_layers]. now apply ncol_pop.
+    + intros x n. unfold lay0 at 1. cbn [sm]. destruct (x =? new_id s) eqn:Ec.
+      * apply Z.eqb_eq in Ec. subst x. unfold lay0. now rewrite Hcd.
+      * destruct (x =? t) eqn:Ex; [|reflexivity].
+        apply Z.eqb_eq in Ex. subst x. cbn [m_layers]. now apply lay0_pop.
+    + intros x Hx. cbn [sm]. destruct (x =? new_id s) eqn:Ec;
+        [apply Z.eqb_eq in Ec; contradiction|].
+      destruct (x =? t) eqn:Ex; [|reflexivity]. apply Z.eqb_eq in Ex. now subst x.
+    + intros x Hx Hx'. cbn [sm]. destruct (x =? new_id s) eqn:Ec;
+        [apply Z.eqb_eq in Ec; contradiction|].
+      destruct (x =? t) eqn:Ex; [apply Z.eqb_eq in Ex; contradiction|reflexivity].
+    + right. split; [reflexivity|]. split; [reflexivity|]. split; [exact Hct|].
+      split; [exact Hc0|]. split; [|split].
+      * intros M n HCh. destruct (I_cm _ _ HI _ _ _ HCh) as [A _]. unfold new_id in A. lia.
+      * intros n. unfold ncol. cbn [sm]. rewrite Z.eqb_refl. reflexivity.
+      * intros x. cbn [sm]. destruct (x =? t) eqn:Ex.
+        -- apply Z.eqb_eq in Ex. subst x.
+           destruct (t =? new_id s) eqn:Ec; [apply Z.eqb_eq in Ec; congruence|]. reflexivity.
+        -- destruct (x =? new_id s); reflexivity.
+Qed.
+
+Lemma walk_alloc used s : Inv used s -> forall q x, walk s 0 q = Some x -> - snext s <= x.
+Proof.
+  intros HI q x HW. destruct (walk_child s q 0 x HW) as [[_ ->]|(M & n & HC)].
+  - pose proof (I_next _ _ HI). lia.
+  - now destruct (I_cm _ _ HI _ _ _ HC).
+Qed.
+
+Lemma walk_step_paths used s done t k :
+  Inv used s -> RootNone s -> walk s 0 done = Some t -> scol s (done, k) = [] ->
+  let s' := fst (walk_step s t k) in
+  let c := snd (walk_step s t k) in
+  walk s' 0 (done ++ [k]) = Some c /\
+  (forall q x, walk s 0 q = Some x -> walk s' 0 q = Some x) /\
+  (forall q x, walk s' 0 q = Some x ->
+     walk s 0 q = Some x \/
+     (q = done ++ [k] /\ walk s 0 q = None /\ x < 0 /\ forall n, ncol s' x n = [])) /\
+  (forall x n, ncol s' x n = ncol s x n) /\
+  (forall x n, lay0 s' x n = lay0 s x n) /\
+  RootNone s' /\
+  (forall x, x <> t -> 0 <= x -> sm s' x = sm s x) /\
+  sh s' = sh s.
+Proof.
+  intros HI HR HW HC.
+  assert (HC' : ncol s t k = []).
+  { unfold scol in HC. cbn [fst snd] in HC. now rewrite HW in HC. }
+  pose proof (walk_alloc _ _ HI _ _ HW) as Ht.
+  destruct (walk_step_frame used s t k HI Ht HC') as (F1 & F2 & F3 & F4 & F5 & F6).
+  cbv zeta. set (s' := fst (walk_step s t k)) in *. set (c := snd (walk_step s t k)) in *.
+  pose proof (I_next _ _ HI) as Hn.
+  assert (F4' : forall x, x <> t -> 0 <= x -> sm s' x = sm s x).
+  { intros x Hx H0. apply F4; auto. unfold new_id. lia. }
+  destruct F6 as [[E HM]|(E & Ec & Hct & Hc0 & HNC & HN & HM)].
+  - (* existing sub-map: no walk changes *)
+    pose proof (walk_same_maps s s' HM) as HWs.
+    assert (c <> 0).
+    { intros ->. destruct (I_bm _ _ HI t k 0 E) as [P _]. unfold RootNone in HR. congruence. }
+    split; [|split; [|split; [|split; [|split; [|split; [|split]]]]]]; auto.
+    + rewrite HWs, walk_app, HW. cbn [walk]. now rewrite E.
+    + intros q x. now rewrite HWs.
+    + intros q x. rewrite HWs. now left.
+    + unfold RootNone. rewrite F3; auto.
+  - pose proof (walk_plus s s' t k c HM E Hct HNC) as HP.
+    assert (HNone : walk s 0 (done ++ [k]) = None).
+    { rewrite walk_app, HW. cbn [walk]. now rewrite E. }
+    split; [|split; [|split; [|split; [|split; [|split; [|split]]]]]]; auto.
+    + apply HP; [congruence|]. right. exists done. auto.
+    + intros q x Hq. apply HP; [congruence|]. now left.
+    + intros q x Hq. apply HP in Hq; [|congruence].
+      destruct Hq as [Hq|(q1 & -> & H1 & ->)]; [now left|]. right.
+      rewrite (unique_path used s 0 HI HR q1 done t H1 HW).
+      split; [reflexivity|]. split; [exact HNone|]. split; [|exact HN].
+      rewrite Ec. unfold new_id. lia.
+    + unfold RootNone. rewrite F3; auto.
+Qed.
+
+(* no handle is stored under the name of a directory on the way *)
+Fixpoint clean (s : store) (done pre : list Z) : Prop :=
+  match pre with
+  | [] => True
+  | k :: pre' => scol s (done, k) = [] /\ clean s (done ++ [k]) pre'
+  end.
+
+Lemma clean_ext s s' : (forall key, scol s' key = scol s key) ->
+  forall pre done, clean s done pre -> clean s' done pre.
+Proof.
+  intros H. induction pre as [|k pre IH]; intros done; cbn [clean]; [auto|].
+  intros [A B]. split; [now rewrite H|now apply IH].
+Qed.
+
+Lemma set_walk_paths used pre : forall s sp done t,
+  Inv used s -> Rel s sp -> RootNone s -> walk s 0 done = Some t -> clean s done pre ->
+  let s1 := fst (set_walk s t pre) in
+  let t1 := snd (set_walk s t pre) in
+  Inv used s1 /\ (exists sp1, Rel s1 sp1) /\ RootNone s1 /\
+  walk s1 0 (done ++ pre) = Some t1 /\
+  (forall q x, walk s 0 q = Some x -> walk s1 0 q = Some x) /\
+  (forall q x, walk s1 0 q = Some x ->
+     walk s 0 q = Some x \/
+     (walk s 0 q = None /\ x < 0 /\ (exists j, q = done ++ firstn j pre) /\
+      forall n, ncol s1 x n = [])) /\
+  (forall x n, ncol s1 x n = ncol s x n) /\
+  (forall x n, lay0 s1 x n = lay0 s x n) /\
+  (forall B, 0 <= B -> (forall q y, walk s 0 q = Some y -> y <= B) ->
+             forall x, B < x -> sm s1 x = sm s x) /\
+  sh s1 = sh s.
+Proof.
+  induction pre as [|k pre IH]; intros s sp done t HI HR HRn HW HCl.
+  - cbn [set_walk fst snd]. rewrite app_nil_r.
+    split; auto. split; [eauto|]. split; auto. split; auto. split; auto.
+    split; [intros q x H; now left|]. auto.
+  - cbn [clean] in HCl. destruct HCl as [HC1 HC2].
+    rewrite set_walk_cons.
+    destruct (walk_step_paths used s done t k HI HRn HW HC1)
+      as (W1 & W2 & W3 & W4 & W5 & W6 & W7 & W8).
+    (* the store invariant after the step *)
+    assert (HInv : Inv used (fst (walk_step s t k)) /\ exists sp', Rel (fst (walk_step s t k)) sp').
+    { pose proof (walk_alloc _ _ HI _ _ HW) as Ht.
+      destruct (alookup k (m_maps (sm s t))) as [c|] eqn:E.
+      - destruct (walk_step_old used s sp t k c HI HR E) as (_ & A & B & _). eauto.
+      - destruct (walk_step_new used s sp t k HI HR Ht E) as (_ & A & (sp' & _ & B) & _). eauto. }
+    destruct HInv as [HI' [sp' HR']].
+    destruct (walk_step s t k) as [s' c] eqn:EW. cbn [fst snd] in *.
+    assert (HS : forall key, scol s' key = scol s key).
+    { apply scol_transfer; auto. intros q x Hq.
+      destruct (W3 q x Hq) as [A|(_ & A & _ & B)]; auto. }
+    specialize (IH s' sp' (done ++ [k]) c HI' HR' W6 W1 (clean_ext s s' HS _ _ HC2)).
+    cbv zeta in IH.
+    destruct IH as (I1 & I2 & I3 & I4 & I5 & I6 & I7 & I8 & I9 & I10).
+    rewrite <- app_assoc in I4. cbn [app] in I4.
+    split; auto. split; auto. split; auto. split; auto.
+    split; [intros q x H; apply I5, W2, H|].
+    split; [|split; [|split; [|split]]].
+    + intros q x Hq. destruct (I6 q x Hq) as [A|(A & Ax & (j & ->) & B)].
+      * destruct (W3 q x A) as [A'|(-> & A' & Ax & B)]; [now left|]. right.
+        split; auto. split; auto. split; [exists 1%nat; reflexivity|].
+        intros n. now rewrite I7.
+      * right. split.
+        -- destruct (walk s 0 ((done ++ [k]) ++ firstn j pre)) as [y|] eqn:E; [|reflexivity].
+           rewrite (W2 _ _ E) in A. discriminate.
+        -- split; auto. split; [|exact B]. exists (S j). cbn [firstn].
+           now rewrite <- app_assoc.
+    + intros x n. now rewrite I7, W4.
+    + intros x n. now rewrite I8, W5.
+    + intros B HB0 HB x Hx. rewrite (I9 B HB0); auto.
+      * apply W7; [|lia]. specialize (HB done t HW). lia.
+      * intros q y Hq. destruct (W3 q y Hq) as [A|(_ & _ & A & _)]; [eauto|lia].
+    + congruence.
+Qed.
